@@ -401,6 +401,92 @@ func (c *Ctx) symxRun() *simpleVerdict {
 			special{[]symReg{{"=", t}}, []string{"=", "=a", "=≤"}, []symReg{{"=≤", 103}}},
 		)
 	}
+	// inputs derived from a set: every symbol and every proper prefix of it, alone, followed by a letter, by the
+	// symbol's own first and last character and by a blank
+	inputsOf := func(regs ...[]symReg) []string {
+		var ins []string
+		seen := map[string]bool{}
+		put := func(s string) {
+			if s != "" && !seen[s] {
+				seen[s] = true
+				ins = append(ins, s)
+			}
+		}
+		for _, rs := range regs {
+			for _, r := range rs {
+				cs := []rune(r.text)
+				for n := len(cs); n >= 1; n-- {
+					p := string(cs[:n])
+					put(p)
+					put(p + "a")
+					put(p + string(cs[:1]))
+					put(p + string(cs[len(cs)-1:]))
+					put(p + " ")
+				}
+			}
+		}
+		return ins
+	}
+	// symbols are made of any characters: the characters at the ends of the ranges a character table may treat apart
+	// (U+0001, the ends of ASCII and Latin-1, the first character above U+00FF, the last configurable character) as
+	// the only, the first, an inner and the last character of registered symbols; the one-character symbol registered
+	// or not, before or after the longer ones, and longer symbols registered after the table was used. (U+0000 is
+	// left out: a registered symbol that contains it is returned without it - reported, not part of the family.)
+	for k, b := range []string{"\x01", "\x7f", "\u0080", "\u00fe", "\u00ff", "\u0100", "\u0101", "\ufffe"} {
+		t := int64(160 + 4*k)
+		one := []symReg{{b, t}}
+		first := []symReg{{b + ">", t + 1}, {b + ">=", t + 2}}
+		inner := []symReg{{"<" + b + "=", t + 3}, {"<", t}}
+		last := []symReg{{"<" + b, t + 1}, {"<", t + 2}, {"<" + b + "=", t + 3}}
+		twice := []symReg{{b + b, t + 1}, {b + b + b, t + 2}}
+		all := append(append(append(append([]symReg{}, one...), first...), last...), twice...)
+		var rev []symReg
+		for i := len(all) - 1; i >= 0; i-- {
+			rev = append(rev, all[i])
+		}
+		specials = append(specials,
+			special{one, inputsOf(one, first), nil},
+			special{first, inputsOf(one, first), nil},
+			special{inner, inputsOf(inner), nil},
+			special{last, inputsOf(last), nil},
+			special{twice, inputsOf(twice), one},
+			special{all, inputsOf(all), nil},
+			special{rev, inputsOf(all), nil},
+			special{one, inputsOf(all), append(append([]symReg{}, first...), last[:1]...)},
+			special{last[:2], inputsOf(all), append(append([]symReg{}, last[2:]...), one...)},
+		)
+	}
+	// white space is as good a symbol character as any: symbols that start with, contain and end with a blank, a
+	// tab or a line break, alone and next to the same symbols without those characters registered with another
+	// type, in both orders and after the table was used
+	for k, p := range [][2]string{{"-", " "}, {",", " "}, {"->", " "}, {"=", "\t"}, {"<>", "\n"}, {":=", " "}} {
+		t := int64(200 + 8*k)
+		core, sp := p[0], p[1]
+		plain := []symReg{{core, t}}
+		lead := []symReg{{sp + core, t + 1}}
+		trail := []symReg{{core + sp, t + 2}}
+		both := []symReg{{sp + core + sp, t + 3}}
+		mid := []symReg{{core + sp + core, t + 4}, {core + sp + ">", t + 5}}
+		dbl := []symReg{{core + sp + sp, t + 6}, {sp + sp + core, t + 7}}
+		join := func(a ...[]symReg) []symReg {
+			var s []symReg
+			for _, x := range a {
+				s = append(s, x...)
+			}
+			return s
+		}
+		all := join(plain, lead, trail, both, mid, dbl)
+		ins := inputsOf(all)
+		specials = append(specials,
+			special{lead, ins, nil}, special{trail, ins, nil}, special{both, ins, nil}, special{mid, ins, nil}, special{dbl, ins, nil},
+			special{join(plain, lead), ins, nil}, special{join(lead, plain), ins, nil},
+			special{join(plain, trail), ins, nil}, special{join(trail, plain), ins, nil},
+			special{join(plain, both), ins, nil}, special{join(both, plain), ins, nil},
+			special{plain, ins, both}, special{both, ins, plain},
+			special{plain, ins, join(trail, lead)}, special{join(trail, lead), ins, plain},
+			special{all, ins, nil}, special{join(dbl, mid, both, trail, lead, plain), ins, nil},
+		)
+	}
 	ctor := c.MustFunc("tokenizers/generic", "", "NewGenericSymbolState")
 	st := ctor.Signature.Results().At(0).Type()
 	newScanner := c.MustFunc("io", "", "NewStringScanner")
@@ -666,7 +752,7 @@ func init() {
 			return emitSimple(c, "MAP.model", "utilities.CharReferenceMap#latest-covering-registration", c.Pos(c.MustFunc("tokenizers/utilities", "", "NewCharReferenceMap").Pos()), c.mapxRun(), "lookups agree with the list model")
 		}})
 	register(&Rule{ID: "SYM.model", Floor: 1,
-		Doc: "GenericSymbolState evaluated abstractly (Add, NextToken over a StringScanner) for symbol sets over {<,=,>} of lengths 1..3 (singletons, ordered pairs, larger prefix-sharing sets in rotated and reversed registration orders, distinct token types) and every input up to length 4 over {<,=,>,a}: the token is the longest registered prefix (or the first character), with that symbol's type, and exactly its characters are consumed; staged histories: S1 registered, inputs starting with w read, w registered, the same inputs read again at once",
+		Doc: "GenericSymbolState evaluated abstractly (Add, NextToken over a StringScanner) for symbol sets over {<,=,>} of lengths 1..3 (singletons, ordered pairs, larger prefix-sharing sets in rotated and reversed registration orders, distinct token types) and every input up to length 4 over {<,=,>,a}: the token is the longest registered prefix (or the first character), with that symbol's type, and exactly its characters are consumed; staged histories: S1 registered, inputs starting with w read, w registered, the same inputs read again at once; symbols whose only, first, inner and last character is a character at the end of a range (U+0001, U+007F, U+0080, U+00FE, U+00FF, U+0100, U+0101, U+FFFE); symbols that start with, contain and end with blanks, tabs and line breaks next to the same symbols without them",
 		Run: func(c *Ctx) []*Obligation {
 			return emitSimple(c, "SYM.model", "generic.GenericSymbolState#longest-registered-symbol", c.Pos(c.MustFunc("tokenizers/generic", "", "NewGenericSymbolState").Pos()), c.symxRun(), "tokens agree with the longest-match model")
 		}})
